@@ -184,9 +184,11 @@ func (e *Eval) Prepare(flags ...[]byte) error {
 	// variable, so that the virtual machine knows it should
 	// run a series of optimizations.
 	//
-	if optimize {
-		e.environment.Set("OPTIMIZE", &object.Boolean{Value: true})
-	}
+	// (The variable is stored either way: it survives in our
+	// environment, and NoOptimize must also be honoured by a script
+	// which has been prepared with the optimizer before.)
+	//
+	e.environment.Set("OPTIMIZE", &object.Boolean{Value: optimize})
 
 	//
 	// Now we're done, construct a VM with the bytecode and constants
